@@ -53,13 +53,15 @@ def generate(R, tier):
         ve, vr, vx = _var(R, ntr), _var(R, ntr), 0.0
     else:
         ve, vr, vx = _var(R, ntr), _var(R, ntr), _var(R, ntr)
-    return {"world": {"seed": R.randrange(1 << 30), "ntaxa": R.randint(1, 8), "nvrnt": R.randint(1, 10), "ntrait": ntr, "taxa_grp": R.random() < 0.7, "nfixed": R.choice([1, 1, 1, 2, 3])},
+    return {"world": {"seed": R.randrange(1 << 30), "ntaxa": R.randint(1, 8), "nvrnt": R.randint(1, 10), "ntrait": ntr, "taxa_grp": R.random() < 0.7, "nfixed": R.choice([1, 1, 1, 2, 3]),
+                      "model": R.choice(["additive", "additive", "dominance"]), "ploidy": R.choice([2, 2, 4])},
             "nenv": nenv, "nrep": (R.randint(1, 3) if R.random() < 0.5 else [R.randint(1, 3) for _ in range(nenv)]),
             "var_env": ve, "var_rep": vr, "var_err": vx, "vclass": vclass,
             "h2": (None if R.random() < 0.6 else {"which": R.choice(["h2", "H2"]), "value": R.choice([1.0, 0.5, 0.25, 0.9, R.random() * 0.98 + 0.01])}),
             "rng": {"kind": R.choice(["Generator", "Generator", "RandomState"]), "seed": R.randrange(1 << 30)},
             "est": {"shuffle": R.randrange(1 << 30), "perm": R.randrange(1 << 30), "drop": R.randint(0, 2), "extra": R.randint(0, 2), "unphased": R.random() < 0.5,
-                    "dup": R.choice([0, 0, 0, 1, 2])}}
+                    "dup": R.choice([0, 0, 0, 1, 2])},
+            "carry": R.choice([None, None, None, "copy", "deepcopy", "hdf5-root", "hdf5-group"])}
 
 
 def shrink(sc):
@@ -83,6 +85,10 @@ def shrink(sc):
         c = copy.deepcopy(sc)
         c["h2"] = None
         yield c
+    if sc.get("carry"):
+        c = copy.deepcopy(sc)
+        c["carry"] = None
+        yield c
     for k in ("drop", "extra", "dup"):
         if sc["est"].get(k):
             c = copy.deepcopy(sc)
@@ -100,6 +106,16 @@ def execute(sc):
     nt, ntr = w["ntaxa"], w["ntrait"]
     pg = world.pgmat(R, nt, w["nvrnt"], 1, taxa_grp=w["taxa_grp"], names=["L%d" % i for i in range(nt)])
     gm = world.algmod(R, w["nvrnt"], ntr, nfixed=w.get("nfixed", 1))
+    u_d = None
+    if w.get("ploidy", 2) == 4:
+        # autotetraploid population: two more chromosome copies per individual
+        extra = numpy.array([[[R.choice((0, 1)) for _ in range(w["nvrnt"])] for _ in range(nt)] for _ in range(2)], dtype="int8")
+        pg = type(pg)(numpy.concatenate([numpy.asarray(pg.mat), extra], axis=0), taxa=pg.taxa, taxa_grp=pg.taxa_grp, vrnt_chrgrp=pg.vrnt_chrgrp,
+                      vrnt_phypos=pg.vrnt_phypos, vrnt_name=pg.vrnt_name, vrnt_genpos=pg.vrnt_genpos, vrnt_xoprob=pg.vrnt_xoprob, ploidy=4)
+    if w.get("model") == "dominance":
+        from pybrops.model.gmod.DenseAdditiveDominanceLinearGenomicModel import DenseAdditiveDominanceLinearGenomicModel
+        u_d = numpy.array([[R.choice((-1.0, -0.25, 0.0, 0.5, 2.0)) for _ in range(ntr)] for _ in range(w["nvrnt"])], dtype=float)
+        gm = DenseAdditiveDominanceLinearGenomicModel(beta=gm.beta, u_misc=None, u_a=gm.u_a, u_d=u_d, trait=gm.trait, model_name="sim", hyperparams=None)
     g = rngseam.make(sc["rng"]["kind"], sc["rng"]["seed"])
     g.mvn_record = []
     V, log, faults, probes = [], [], {}, {}
@@ -139,14 +155,51 @@ def execute(sc):
                     return _out(sc, V, log, faults, probes, False)
             else:
                 probes["no_genetic_variance"] = 1
+    # ---- the protocol that runs the trial may be a copy of the configured one or have been stored and read back
+    carry = sc.get("carry")
+    if carry:
+        want = {k: numpy.array(getattr(pt, k), dtype=float, copy=True) for k in ("var_env", "var_rep", "var_err")}
+        want["nenv"], want["nrep"] = int(pt.nenv), numpy.array(pt.nrep, copy=True)
+        try:
+            if carry == "copy":
+                pt2 = copy.copy(pt)
+            elif carry == "deepcopy":
+                pt2 = copy.deepcopy(pt)
+            else:
+                import io
+                import h5py
+                bio = io.BytesIO()
+                grp = None if carry == "hdf5-root" else "trial/protocols/pt"
+                with h5py.File(bio, "w") as h5:
+                    pt.to_hdf5(h5, grp)
+                with h5py.File(bio, "r") as h5:
+                    pt2 = G_E_Phenotyping.from_hdf5(h5, grp, gpmod=gm)
+            pt2.rng = g
+        except Exception as e:
+            V.append(viol("phenotyping-completes", C + "." + carry, "raises:%s" % type(e).__name__, "%s: %s" % (type(e).__name__, e)))
+            return _out(sc, V, log, faults, probes, False)
+        faults["protocol_carried_" + carry.split("-")[0]] = 1
+        for k, v in want.items():
+            got = numpy.asarray(getattr(pt2, k))
+            if got.shape != numpy.asarray(v).shape or not numpy.array_equal(got, v):
+                V.append(viol("requested-variances-in-force", C + "." + carry, "field=" + k,
+                              "the protocol obtained through %s has %s = %s, the configured one %s" % (carry, k, got.tolist(), numpy.asarray(v).tolist())))
+                return _out(sc, V, log, faults, probes, False)
+        pt = pt2
     var_env, var_rep, var_err = (numpy.asarray(getattr(pt, k), dtype=float) for k in ("var_env", "var_rep", "var_err"))
     truth = numpy.asarray(gm.gegv(pg).unscale(), dtype=float)
     # the true genotypic value, from the allele calls: intercept (first fixed effect plus the cell mean of the others) + dosage . effects
     beta = numpy.asarray(gm.beta, dtype=float)
     dose = numpy.asarray(pg.mat).astype(float).sum(0)
     truth_ref = dose @ numpy.asarray(gm.u_a, dtype=float) + beta[0] + (beta[1:].sum(0) / beta.shape[0] if beta.shape[0] > 1 else 0.0)
-    if truth.shape != truth_ref.shape or numpy.any(numpy.abs(truth - truth_ref) > 64 * 2.3e-16 * (numpy.abs(dose) @ numpy.abs(numpy.asarray(gm.u_a, dtype=float)) + numpy.abs(beta).sum(0) + 1.0)):
-        V.append(viol("zero-noise-equals-truth", "DenseAdditiveLinearGenomicModel.gegv", "genotypic-value",
+    if u_d is not None:
+        # dominance deviations apply to every heterozygous genotype (neither nulliplex nor fully homozygous for allele 1)
+        truth_ref = truth_ref + ((dose != 0) & (dose != float(w.get("ploidy", 2)))).astype(float) @ u_d
+        faults["dominance_model"] = 1
+    if w.get("ploidy", 2) != 2:
+        faults["polyploid_population"] = 1
+    if truth.shape != truth_ref.shape or numpy.any(numpy.abs(truth - truth_ref) > 64 * 2.3e-16 * (numpy.abs(dose) @ numpy.abs(numpy.asarray(gm.u_a, dtype=float)) + numpy.abs(beta).sum(0) + (numpy.abs(u_d).sum(0) if u_d is not None else 0.0) + 1.0)):
+        V.append(viol("zero-noise-equals-truth", type(gm).__name__ + ".gegv", "genotypic-value",
                       "genotypic values reported by the model differ from intercept + dosage x effects computed from the allele calls (max deviation %r)" %
                       (float(numpy.abs(truth - truth_ref).max()) if truth.shape == truth_ref.shape else None)))
         return _out(sc, V, log, faults, probes, False)
@@ -305,11 +358,11 @@ def execute(sc):
     extra = ["X%d" % i for i in range(est["extra"])]
     gtaxa = [names[i] for i in keep] + extra
     ggrp = None if pg.taxa_grp is None else numpy.concatenate([pg.taxa_grp[keep], numpy.full(len(extra), 9, dtype=int)])
-    gmat = numpy.concatenate([numpy.asarray(pg.mat)[:, keep, :], numpy.zeros((2, len(extra), pg.nvrnt), dtype="int8")], axis=1)
+    gmat = numpy.concatenate([numpy.asarray(pg.mat)[:, keep, :], numpy.zeros((numpy.asarray(pg.mat).shape[0], len(extra), pg.nvrnt), dtype="int8")], axis=1)
     if est["unphased"]:
-        gobj = DenseGenotypeMatrix(gmat.sum(0, dtype="int8"), taxa=obj(gtaxa), taxa_grp=ggrp, vrnt_chrgrp=pg.vrnt_chrgrp, vrnt_phypos=pg.vrnt_phypos, ploidy=2)
+        gobj = DenseGenotypeMatrix(gmat.sum(0, dtype="int8"), taxa=obj(gtaxa), taxa_grp=ggrp, vrnt_chrgrp=pg.vrnt_chrgrp, vrnt_phypos=pg.vrnt_phypos, ploidy=int(pg.ploidy))
     else:
-        gobj = type(pg)(gmat, taxa=obj(gtaxa), taxa_grp=ggrp, vrnt_chrgrp=pg.vrnt_chrgrp, vrnt_phypos=pg.vrnt_phypos)
+        gobj = type(pg)(gmat, taxa=obj(gtaxa), taxa_grp=ggrp, vrnt_chrgrp=pg.vrnt_chrgrp, vrnt_phypos=pg.vrnt_phypos, ploidy=int(pg.ploidy))
     if extra:
         faults["unphenotyped_taxa_in_genotypes"] = 1
     if est["drop"] and nt > 1:
